@@ -6,18 +6,25 @@ import (
 
 	"cosmossdk.io/math"
 	sdk "github.com/cosmos/cosmos-sdk/types"
+	ammtypes "github.com/elys-network/elys/x/amm/types"
 
 	"verifharness/chain"
+	"verifharness/ref"
 )
 
 // C03 (application part): in every AMM end-blocker (the swap batch) and masterchef end-blocker
 // (fee / revenue conversion swaps) an oracle pool never pays out more value, at the oracle prices
-// in force, than it takes in. The pure part (scenario pure-amm) decides the formula itself.
+// in force, than it takes in, and the weighted product prod(B_i^w_i) of a constant-product pool's
+// reserves never decreases (only swaps run in those phases: whatever the route, the batch order or
+// the number of pieces a trade is split into, every piece leaves the product at least where it
+// was). The pure part (scenario pure-amm) decides the formula itself.
 type C03 struct {
-	st    *Stats
-	pre   map[uint64]map[string]math.Int
-	tre   map[uint64]map[string]math.Int
-	price map[string]math.LegacyDec
+	st     *Stats
+	pre    map[uint64]map[string]math.Int
+	tre    map[uint64]map[string]math.Int
+	price  map[string]math.LegacyDec
+	cpPre  map[uint64]map[string]math.Int
+	cpBook map[uint64]map[string]math.Int
 }
 
 func NewC03() *C03           { return &C03{st: NewStats("C03")} }
@@ -30,8 +37,14 @@ func (m *C03) AroundModule(w *chain.World, ctx sdk.Context, module, phase string
 	a := w.App
 	if before {
 		m.pre, m.tre, m.price = map[uint64]map[string]math.Int{}, map[uint64]map[string]math.Int{}, map[string]math.LegacyDec{}
+		m.cpPre, m.cpBook = map[uint64]map[string]math.Int{}, map[uint64]map[string]math.Int{}
 		for _, p := range a.AmmKeeper.GetAllPool(ctx) {
 			if !p.PoolParams.UseOracle {
+				m.cpPre[p.PoolId] = balMap(w, ctx, p.Address)
+				m.cpBook[p.PoolId] = map[string]math.Int{}
+				for _, as := range p.PoolAssets {
+					m.cpBook[p.PoolId][as.Token.Denom] = as.Token.Amount
+				}
 				continue
 			}
 			m.pre[p.PoolId] = balMap(w, ctx, p.Address)
@@ -43,6 +56,10 @@ func (m *C03) AroundModule(w *chain.World, ctx sdk.Context, module, phase string
 		return
 	}
 	for _, p := range a.AmmKeeper.GetAllPool(ctx) {
+		if cp, ok := m.cpPre[p.PoolId]; ok && !p.PoolParams.UseOracle {
+			m.cpProduct(w, ctx, module, p.PoolId, p.Address, cp, m.cpBook[p.PoolId], poolDenoms(p.PoolAssets), poolWeights(p.PoolAssets))
+			continue
+		}
 		pre, ok := m.pre[p.PoolId]
 		if !ok {
 			continue
@@ -83,5 +100,82 @@ func (m *C03) AroundModule(w *chain.World, ctx sdk.Context, module, phase string
 			w.Report(chain.Violation{Property: "C03", Rule: "C03.oracle_pool_value_not_paid_away", Scope: sc("pool", fmt.Sprint(p.PoolId), "phase", module), Relation: "pool_value_decreased",
 				Detail: fmt.Sprintf("height %d %s.end: oracle pool %d holdings changed by %s, worth %s (raw, at the oracle prices in force) - the pool paid out more than it took in", ctx.BlockHeight(), module, p.PoolId, fmtDelta(d), val)})
 		}
+	}
+}
+
+func poolDenoms(as []ammtypes.PoolAsset) []string {
+	out := []string{}
+	for _, a := range as {
+		out = append(out, a.Token.Denom)
+	}
+	return out
+}
+
+// poolWeights returns the weights divided by their gcd (nil if a reduced weight is above 64: the
+// exact integer power would be too large to be worth it).
+func poolWeights(as []ammtypes.PoolAsset) []int64 {
+	g := new(big.Int)
+	for _, a := range as {
+		g.GCD(nil, nil, g, a.Weight.BigInt())
+	}
+	if g.Sign() == 0 {
+		return nil
+	}
+	out := []int64{}
+	for _, a := range as {
+		q := new(big.Int).Quo(a.Weight.BigInt(), g)
+		if !q.IsInt64() || q.Int64() > 64 || q.Int64() <= 0 {
+			return nil
+		}
+		out = append(out, q.Int64())
+	}
+	return out
+}
+
+func (m *C03) cpProduct(w *chain.World, ctx sdk.Context, module string, id uint64, addr string, pre, book map[string]math.Int, denoms []string, ws []int64) {
+	cur := balMap(w, ctx, addr)
+	d := diffBal(pre, cur)
+	if len(d) == 0 {
+		return
+	}
+	if ws == nil {
+		m.st.Ev("cp_pool_weights_not_reducible")
+		return
+	}
+	// The formula works on the pool's recorded reserves; coins that were merely sent to the pool's
+	// address are not part of them. Start from the recorded reserves and apply what really moved
+	// at the pool's address during the phase.
+	equal := true
+	for _, x := range ws {
+		if x != ws[0] {
+			equal = false
+		}
+	}
+	b0, b1, allow := []*big.Int{}, []*big.Int{}, []*big.Int{}
+	for _, dn := range denoms {
+		r0 := zi(book, dn).BigInt()
+		b0 = append(b0, r0)
+		b1 = append(b1, new(big.Int).Add(r0, zi(d, dn).BigInt()))
+		// rounding: one unit per swap; unequal weights: the power approximation's 1e-8 relative
+		// precision per swap (at most 256 swaps touch one pool in a phase of these workloads)
+		al := big.NewInt(256)
+		if !equal {
+			al.Add(al, new(big.Int).Div(new(big.Int).Mul(r0, big.NewInt(256)), big.NewInt(100_000_000)))
+		}
+		allow = append(allow, al)
+	}
+	for _, b := range b0 {
+		if b.Sign() <= 0 {
+			return
+		}
+	}
+	m.st.Ev("cp_pool_batch")
+	if m.st.Eval(fmt.Sprintf("product/%d/%s", id, module), fmtDelta(d)) {
+		m.st.Sample(map[string]interface{}{"height": ctx.BlockHeight(), "phase": module + ".end", "pool": id, "constant_product": true, "pool_delta": fmtDelta(d), "reserves_before": fmt.Sprint(b0), "weights": fmt.Sprint(ws)})
+	}
+	one := big.NewInt(1)
+	if !ref.ValueNotDecreased(b0, b1, ws, one, one, allow) {
+		w.Report(chain.Violation{Property: "C03", Rule: "C03.cp_pool_product_not_decreased", Scope: sc("pool", fmt.Sprint(id), "phase", module), Relation: "weighted_product_decreased",
+			Detail: fmt.Sprintf("height %d %s.end: constant-product pool %d reserves %v -> %v (weights %v, moved at the pool address: %s): the weighted product decreased - the swaps of this phase paid out more than the formula allows", ctx.BlockHeight(), module, id, b0, b1, ws, fmtDelta(d))})
 	}
 }
